@@ -571,12 +571,14 @@ def gen_e1_long(tape, *, lag=True):
         if tape.chance(1, 3):
             ch.insert(tape.draw(len(ch) + 1), gen_adapter(tape, PASS))
         links.append({"src": [0, 0], "dst": [1, 0], "chain": ch})
-        if tape.chance(1, 2):
-            comps.append({"name": "s2", "kind": "sim", "start": 0, "steps": [tape.choice([1, 2, 5])],
+        marathon = tape.chance(1, 2)          # far more than a thousand updates in one run
+        if marathon or tape.chance(1, 2):
+            comps.append({"name": "s2", "kind": "sim", "start": 0, "steps": [1 if marathon else tape.choice([1, 2, 5])],
                           "inputs": [{"name": "i0", "initial_pull": True}], "outputs": []})
             links.append({"src": [0, 0], "dst": [2, 0], "chain": []})
         listing = tape.shuffle(list(range(len(comps))))
-        span = d + tape.rng_int(30, 90)
+        # (now and then far more than a thousand updates in one run)
+        span = d + tape.rng_int(30, 90) + (400 if marathon else 0)
     sc = {"engine": "E1", "components": comps, "links": links, "end": span,
           "start_given": tape.chance(1, 2), "cycles": [], "run_only": tape.chance(1, 2),
           "listing": listing, "link_order": tape.shuffle(list(range(len(links)))), "long": True}
